@@ -138,6 +138,14 @@ class Interp:
             return ModuleV({"numpy": "np"}.get(name, name))
         if name in self.repo.classes or name in BUILTIN_EXC:
             return VClass(name)
+        if fr is not None:
+            # module-level functions: own module first, then `from black_it.x import f [as g]` (two modules may
+            # define functions of the same name, e.g. the two checkpointing back-ends)
+            if name in self.repo.mod_functions.get(fr.module, {}):
+                return FuncV(("repo", f"{fr.module}::{name}"))
+            imp = self.repo.imports.get(fr.module, {}).get(name)
+            if imp is not None and imp[1] in self.repo.mod_functions.get(imp[0], {}):
+                return FuncV(("repo", f"{imp[0]}::{imp[1]}"))
         if name in self.repo.functions:
             mod, _fn = self.repo.functions[name]
             return FuncV(("repo", f"{mod}::{name}"))
@@ -177,10 +185,35 @@ class Interp:
         for v in node.values:
             if isinstance(v, ast.FormattedValue):
                 _check_pure(v.value)
+        # f"prefix{int-expr}": a structured key (prefix, d) - distinct from every string constant of the program
+        # (checked), injective in d
+        vals = node.values
+        if len(vals) == 2 and isinstance(vals[0], ast.Constant) and isinstance(vals[0].value, str) and \
+                isinstance(vals[1], ast.FormattedValue) and vals[1].format_spec is None and vals[1].conversion == -1:
+            try:
+                d = self.eval(vals[1].value, st)
+            except Unsupported:
+                d = None
+            if d is not None and (isinstance(d, int) and not isinstance(d, bool) or (is_z3(d) and z3.is_int(d))):
+                return lib.fstr(st, vals[0].value, d)
         return VStr(z3.Int(fresh_name("fstr")))
 
     def e_Tuple(self, node, st):
-        return VTuple([self.eval(e, st) for e in node.elts])
+        items = []
+        for e in node.elts:
+            if isinstance(e, ast.Starred):
+                v = self.eval(e.value, st)
+                if isinstance(v, VTuple):
+                    items.extend(v.items)
+                    continue
+                a = self.arr_of(v, st)
+                n = self.concrete_int(a.shape[0])
+                if n is None:
+                    raise Unsupported("star-unpacking of a sequence of unknown length")
+                items.extend(a.elem(i) for i in range(n))
+            else:
+                items.append(self.eval(e, st))
+        return VTuple(items)
 
     def e_List(self, node, st):
         items = [self.eval(e, st) for e in node.elts]
@@ -391,6 +424,9 @@ class Interp:
         if isinstance(container, Ref) and container.what == "cdict":
             if isinstance(item, VStr) and item.text is not None:
                 return item.text in st.heap[container.rid].items
+            if isinstance(item, VStr) and item.fparts is not None:
+                fam = st.heap[container.rid].fam.get(item.fparts[0])
+                return fam[0](to_z3(item.fparts[1])) if fam is not None else False
             raise Unsupported("symbolic key in concrete dict")
         if isinstance(container, (Arr, Ref, VTuple)):
             a = self.arr_of(container, st)
@@ -426,7 +462,8 @@ class Interp:
         if isinstance(a, (Arr, Ref)) or isinstance(b, (Arr, Ref)):
             return lib.elementwise2(self, st, lambda x, y: self.scalar_binop(op, x, y, st, node), a, b)
         if isinstance(op, ast.Div) and isinstance(a, Opaque) and a.cls == "Path":
-            return Opaque(z3.Const(fresh_name("path"), ObjS), "Path")
+            from . import lib_fs
+            return lib_fs.path_div(self, st, a, b)
         return self.scalar_binop(op, a, b, st, node)
 
     def _is_list(self, v, st):
@@ -661,6 +698,8 @@ class Interp:
                         return self.opaque_attr(base, self.mangle(body[0].value.attr, pr[0]), st)
         if cls in lib.OPAQUE_METHODS and attr in lib.OPAQUE_METHODS[cls]:
             return BoundMethod(base, attr)
+        if cls in getattr(lib, "OPAQUE_ATTRS", {}) and attr in lib.OPAQUE_ATTRS[cls]:
+            return lib.OPAQUE_ATTRS[cls][attr](self, st, base)
         if attr == "__name__":
             return VStr(z3.Function("fld___name__", ObjS, z3.IntSort())(base.term))
         raise Unsupported(f"attribute {attr} of opaque {cls}")
@@ -700,6 +739,10 @@ class Interp:
                     self.safety(st, False, "key-present", node)
                     raise Unsupported("missing key")
                 return d.items[k.text]
+            if isinstance(k, VStr) and k.fparts is not None and k.fparts[0] in d.fam:
+                has, get = d.fam[k.fparts[0]]
+                self.safety(st, has(to_z3(k.fparts[1])), "key-present", node)
+                return get(to_z3(k.fparts[1]))
             raise Unsupported("symbolic key into concrete dict")
         if isinstance(base, VTuple):
             if isinstance(sl, ast.Slice):
